@@ -149,7 +149,7 @@ def _same_arc(a, b):
 # ------------------------------------------------------------------ C09-R1..R3 stop protocol
 def rule_stop(m, rep):
     cad = m.cad
-    b = m.stop
+    b = inl(cad, m.stop)
     T = Terms(b)
     sends = m.sends(b, T)
     rep.sites(len(sends))
@@ -233,9 +233,8 @@ def rule_run_exit(m, rep, flagname, only=None):
         if x[0] != 'discr':
             continue
         y = x[1]
-        inner = y
-        while inner[0] in ('field', 'payload', 'load'):
-            inner = inner[1]
+        from .queuing import proj_root
+        inner = proj_root(y)
         if inner == lm.dterm and y != lm.dterm:
             for s, labs in edges.items():
                 if ('variant', 'None') in labs:
@@ -324,9 +323,10 @@ def _reaches_without_exit(body, start, target, loop):
 
 def rule_same_sender(m, rep, rid='R3'):
     """The marker travels on the same channel as the metrics (FIFO puts it behind everything accepted earlier)."""
-    Ts, Tp = Terms(m.stop), Terms(m.submit)
-    s1 = m.sends(m.stop, Ts)
-    s2 = m.sends(m.submit, Tp)
+    bs_, bp_ = inl(m.cad, m.stop), inl(m.cad, m.submit)
+    Ts, Tp = Terms(bs_), Terms(bp_)
+    s1 = m.sends(bs_, Ts)
+    s2 = m.sends(bp_, Tp)
     ok = bool(s1) and bool(s2)
     rep.ob(rid, 'marker-shares-the-metric-channel', ok, m.stop.where(),
            'stop() and submit() send on the same `%s` field' % m.f_sender if ok else 'stop marker and metrics use different channels')
@@ -583,5 +583,6 @@ def rule_handler_plumbing(m, rep):
                 ct = norm(Tb.call_term(bi))
                 if _path_has_field(ct[2][0], m.f_task):
                     tcs.append(b)
-    ok = [x.path for x in tcs] == [m.run.path]
+    region = private_region(cad, m.run, m.worker)
+    ok = bool(tcs) and all(x.path in region for x in tcs)
     rep.ob('R3', 'task-invoked-only-by-run', ok, m.run.where(), 'the task (and with it the handler) runs only inside the worker loop, i.e. on the background thread' if ok else 'task called from %s' % [x.short() for x in tcs])
